@@ -22,6 +22,7 @@ EXPLANATION = (
     "the wiring of the vote quorum (VisualVoting::new receives visual_min_votes) in both trackers."
     ' R12.3 also requires that the track taken out of the positional stage is the very track reported as won by appearance; (R12.10) the observation constructor stores feature, quality, box and custom id unchanged and VisualMetricBuilder::build hands every configured threshold / bound over unchanged; (R12.11) the euclidean / cosine distances the votes are counted on satisfy the clauses of C16.'
     ' (R12.12) the count that gates appearance matching is maintained by the gallery bookkeeping of C13 (retain / sort / evict / push / recount); R12.11 includes the padding clause of the packing routine.')
+EXPLANATION += ' (R12.13) the exclusively-owned share that gates the use of a feature is computed by the region / pair-filter / share rules of C15.'
 NOT_DECIDED = ["vote arithmetic and gallery contents for concrete inputs", "feature distance numerics (C16, N/A)"]
 ASSUMPTIONS = ["itertools::tee duplicates the stream", "rustc nightly MIR construction"]
 
@@ -66,6 +67,11 @@ def run(ctx):
     n = C16.euclidean_rule(ctx, 'R12.11') + C16.cosine_rule(ctx, 'R12.11')
     n += C16.padding_rule(ctx, 'R12.11')
     ctx.floor('R12.11', n, 14)
+    from props import C15
+    ctx.rule('R12.13', 'the exclusively-owned share that gates the use of a feature is the share of C15: own polygon minus the '
+                       'polygons of the other boxes (near pairs by the bounding-circle test alone), divided by the box area')
+    n = C15.subtraction_rule(ctx, 'R12.13') + C15.pair_filter_rule(ctx, 'R12.13') + C15.share_rule(ctx, 'R12.13')
+    ctx.floor('R12.13', n, 10)
     ctx.rule('R12.12', 'the count that gates appearance matching is the number of features actually stored (gallery '
                        'bookkeeping of C13: retain / sort / evict / push / recount)')
     ctx.floor('R12.12', M.rule_gallery(ctx, 'R12.12'), 8)
